@@ -5,6 +5,7 @@ import (
 	"encoding/binary"
 	"encoding/hex"
 	"fmt"
+	"github.com/dgraph-io/ristretto/v2"
 	"math/big"
 	"math/rand"
 	"sync"
@@ -74,6 +75,11 @@ func vC30ActorFromKey(priv crypto.Key, net crypto.Hash, relayer bool, name strin
 	a.PublicViewKey = a.PrivateViewKey.Public()
 	n := &Node{Signer: a, networkId: net, isRelayer: relayer}
 	n.IdForNetwork = n.Signer.Hash().ForNetwork(n.networkId)
+	// a running node has its verification cache; whatever the authentication path remembers there must not
+	// change its answers
+	if cache, err := ristretto.NewCache(&ristretto.Config[[]byte, any]{NumCounters: 1e4, MaxCost: 1 << 22, BufferItems: 64}); err == nil {
+		n.cacheStore = cache
+	}
 	return &vC30Actor{node: n, priv: priv, name: name}
 }
 
@@ -141,6 +147,9 @@ func (m *vC30Mon) run(recv *vC30Actor, c *vC30Case) (acceptedCall bool, evaluate
 	var pval any
 	var stack string
 	clockSec := int64(-1)
+	if recv.node.cacheStore != nil {
+		recv.node.cacheStore.Wait()
+	}
 	if c.clock >= 0 {
 		okBracket := false
 		for attempt := 0; attempt < 6 && !okBracket; attempt++ {
